@@ -17,7 +17,7 @@ PID = "C08"
 def classify(e):
     if e.get("op") != "nodefam":
         return "c08|%s" % e.get("op")
-    what = "panic" if e["panics"] else ("state-or-reply" if e["bad_other"] else ("stale-tail" if e["bad_tail"] else "other"))
+    what = "panic" if e["panics"] else ("state-or-reply" if e["bad_other"] else ("genuine-blocked" if e.get("then_completes") == "no" else ("stale-tail" if e["bad_tail"] else "other")))
     return "c08|%s|%s|src=%s|%s|%s" % (e["state"], e["family"], e["src"], e["kind"] if e["kind"] != "-" else "any", what)
 
 
